@@ -80,6 +80,9 @@ def token_soup(r: random.Random, alphabet: list[str], n: int) -> str:
 
 
 ILL_TYPED = [
+	'x: dict[int] = {}\n', 'def f(a: dict[str]) -> None:\n\tpass\n', 'class A:\n\tdef __init__(self) -> None:\n\t\tself.m: dict[str] = {}\n', 'def f() -> None:\n\tx: tuple[()] = ()\n',
+	'def f() -> None:\n\ta = a\n', 'x = x + 1\n', 'a = b\nb = a\n', 'def f() -> None:\n\tfor i in i:\n\t\tpass\n', 'class A(A):\n\tpass\n\n\ndef f() -> None:\n\tA().x\n', 'class A(B):\n\tpass\n\n\nclass B(A):\n\tpass\n\n\ndef f() -> None:\n\tB().x\n',
+	'def f() -> None:\n\ta = len()\n', 'def f() -> None:\n\ta = super()\n', 'def f() -> None:\n\tfor i in range(1, 2, 3, 4):\n\t\tpass\n',
 	'def f(a) -> int:\n\treturn a + 1\n',
 	'def f(a, b: int = 2) -> int:\n\tc = a\n\treturn c\n',
 	'def f(a) -> int:\n\treturn 1\n',
